@@ -123,3 +123,64 @@ def quotes_re_obligations(prop):
     g.kind = "G"
     out.append(g)
     return out
+
+
+def ambiguous_repeat_obligations(prop):
+    """no pattern of the parsing modules repeats, without bound, a group one of whose alternatives is itself nothing but an unbounded repeat (`(x+|y)*`): such a group can
+    split a run of x in exponentially many ways, and a line on which the overall match fails (an unclosed quote, say) is then tried in all of them - the run hangs.
+    Read from CPython's parse of every compiled pattern of the modules (re._parser), on every run."""
+    try:
+        import re._parser as sp, re._constants as sc
+    except ImportError:                         # Python < 3.11
+        import sre_parse as sp, sre_constants as sc
+    from bounded import retime
+    out = []
+
+    def alts(seq):
+        """the alternatives (item sequences) a sub-pattern consists of"""
+        items = list(seq)
+        if len(items) == 1 and items[0][0] is sc.SUBPATTERN:
+            return alts(items[0][1][3])
+        if len(items) == 1 and items[0][0] is sc.BRANCH:
+            return [a for b in items[0][1][1] for a in alts(b)]
+        return [items]
+
+    def unbounded(item):
+        return item[0] in (sc.MAX_REPEAT, sc.MIN_REPEAT) and item[1][1] == sc.MAXREPEAT
+
+    def walk(seq, found):
+        for item in seq:
+            op, av = item
+            if unbounded(item):
+                for a in alts(av[2]):
+                    if len(a) == 1 and unbounded(a[0]):
+                        found.append(True)
+                walk(av[2], found)
+            elif op is sc.SUBPATTERN:
+                walk(av[3], found)
+            elif op is sc.BRANCH:
+                for b in av[1]:
+                    walk(b, found)
+            elif op in (sc.MAX_REPEAT, sc.MIN_REPEAT):
+                walk(av[2], found)
+            elif op in (sc.ASSERT, sc.ASSERT_NOT):
+                walk(av[1], found)
+    pats = retime.patterns()
+    bad = []
+    for name, p in pats:
+        found = []
+        try:
+            walk(sp.parse(p.pattern, p.flags), found)
+        except Exception:
+            continue
+        if found:
+            bad.append(name)
+            r = OR(id=f"{prop}.B.{name}.no_repeat_of_a_bare_repeat", status=REFUTED, kind="B", role="post", backend="sre-parse", target=name,
+                   desc=f"`{p.pattern[:70]}`: an unbounded repeat one of whose alternatives is a bare unbounded repeat")
+            r.witness = {"pattern": p.pattern[:200]}
+            r.detail = "exponentially many ways to split a run: a line on which the match fails is tried in all of them"
+            out.append(r)
+    out.append(OR(id=f"{prop}.B.patterns.no_repeat_of_a_bare_repeat", status=PROVED if not bad else REFUTED, kind="B", role="post", backend="sre-parse", target="compiled patterns of the parsing modules",
+                  desc=f"{len(pats)} compiled patterns: none repeats without bound a group that has a bare unbounded repeat among its alternatives", witness={"patterns": bad} if bad else None))
+    return out
+
